@@ -229,7 +229,7 @@ class Known:
     def __init__(self, path=None):
         path = path or os.path.join(VERIF, "known_findings.json")
         self.entries = []
-        if os.path.exists(path):
+        if os.path.exists(path) and os.path.getsize(path) > 0:
             self.entries = json.load(open(path)).get("findings", [])
         self.seen = {}
 
